@@ -64,8 +64,8 @@ def site_inventory(run, sess, funcs):
                     continue
                 seen.add(key)
                 total += 1
-                s = z3.Solver(); s.set('timeout', 20000); s.add(*facts, o['cond'])
-                r = s.check()
+                import zutil
+                r = zutil.check(*facts, o['cond'], timeout_s=20)
                 verdict = 'unsat' if r == z3.unsat else ('sat' if r == z3.sat else 'unknown')
                 run.add_query({'name': f'[{sname}] {fn} {o["bb"]}: panic site `{o["msg"]}` unreachable', 'engine': 'E2 skeleton (calls uninterpreted, callee contracts)', 'verdict': verdict, 'kind': o['kind']})
                 if verdict != 'unsat':
